@@ -487,7 +487,9 @@ def _build_table():
           v2=lambda: [cyc_el("RED", 2), cyc_el("GREEN", 4)], v3=lambda: [cyc_el("GREEN", 3), cyc_el("RED", 2)]),
         P("time_offset", d=OMIT, v1=1, v2=2), P("active", d=OMIT, v1=False)])
     def set_cycle(x, a, b, val_of):   # v1 <-> v2: the cycle setter; v1 <-> v3: the `active` setter
-        if "v3" in (a, b):
+        if a == "d":                      # built without cycle (stored active = False): the cycle setter keeps it
+            x.traffic_light_cycle = val_of(b)["traffic_light_cycle"]
+        elif "v3" in (a, b):
             x.active = (b != "v3")
         else:
             x.traffic_light_cycle = val_of(b)["traffic_light_cycle"]
@@ -708,10 +710,92 @@ def mutate(cls, x, xv, yv, mk, n=0):
     (g,) = [h for h in xv if xv[h] != yv[h]]
     if g in c.setters:
         c.setters[g](x, xv[g], yv[g], lambda tok: c.groups[g][tok]())
+    elif yv[g] == "d":                     # EqContract!SetNone: the setter takes None for "left out"
+        for param in c.params_of[g]:
+            setattr(x, param, None)
     else:
         for param, value in c.groups[g][yv[g]]().items():
             setattr(x, param, value)
     return x
+
+
+def _lights(x):
+    net = getattr(x, "lanelet_network", x)
+    return net.traffic_lights
+
+
+def _each_light(f):
+    def g(x):
+        for tl in _lights(x):
+            f(tl)
+    return g
+
+
+# EqContract!RawMut: public setter calls that leave a state no constructor produces
+RAW = {
+    ("TrafficLight", "drop_cycle"): lambda x: setattr(x, "traffic_light_cycle", None),
+    ("TrafficLight", "empty_cycle"): lambda x: setattr(x.traffic_light_cycle, "cycle_elements", []),
+    ("TrafficLight", "none_cycle_elements"): lambda x: setattr(x.traffic_light_cycle, "cycle_elements", None),
+    ("TrafficLight", "activate_without_cycle"): lambda x: setattr(x, "active", True),
+    ("TrafficLightCycle", "none_cycle_elements"): lambda x: setattr(x, "cycle_elements", None),
+    ("Lanelet", "flag_without_neighbour_left"): lambda x: setattr(x, "adj_left_same_direction", True),
+    ("Lanelet", "flag_without_neighbour_right"): lambda x: setattr(x, "adj_right_same_direction", True),
+    ("Lanelet", "drop_neighbour_left"): lambda x: setattr(x, "adj_left", None),
+    ("Lanelet", "drop_neighbour_right"): lambda x: setattr(x, "adj_right", None),
+    ("LaneletNetwork", "lights_drop_cycle"): _each_light(lambda tl: setattr(tl, "traffic_light_cycle", None)),
+    ("LaneletNetwork", "lights_empty_cycle"): _each_light(lambda tl: setattr(tl.traffic_light_cycle, "cycle_elements", [])),
+    ("Scenario", "lights_drop_cycle"): _each_light(lambda tl: setattr(tl, "traffic_light_cycle", None)),
+    ("Scenario", "lights_empty_cycle"): _each_light(lambda tl: setattr(tl.traffic_light_cycle, "cycle_elements", [])),
+}
+GETTER = {"adjacent_left": "adj_left", "adjacent_left_same_direction": "adj_left_same_direction",
+          "adjacent_right": "adj_right", "adjacent_right_same_direction": "adj_right_same_direction"}
+
+
+def fresh_from_current(cls, x):
+    """a fresh object built through the constructor from the CURRENT attribute values of x (public getters, deep
+    copies); None for containers, whose content is not a constructor argument"""
+    c = table()[cls]
+    if any(not ps for ps in c.params_of.values()):
+        return None
+    kw = {p: copy.deepcopy(getattr(x, GETTER.get(p, p))) for ps in c.params_of.values() for p in ps}
+    return c.build(kw)
+
+
+def _execute_raw(case):
+    cls, xv, name = case["cls"], case["x"], case["grp"]
+    x = build(cls, xv)
+    if case["warm"]:
+        twin = build(cls, xv)
+        _b(lambda: x == twin)
+        _b(lambda: twin == x)
+        _h(x)
+    try:
+        RAW[(cls, name)](x)
+        res = "ok"
+    except Exception as ex:
+        res = "exc:" + type(ex).__name__
+    old = build(cls, xv)
+    c = copy.deepcopy(x)
+    try:
+        z = fresh_from_current(cls, x)
+    except Exception:
+        z = None
+    hx, vx = _h(x)
+    hc, vc = _h(c)
+    hz, vz = _h(z) if z is not None else ("none", None)
+    ho, vo = _h(old)
+    same = lambda a, va, b, vb: int(a == "ok" and b == "ok" and va == vb)   # noqa: E731
+    return {"ev": [{"op": "raw", "cls": cls, "x": xv, "kind": "mutate", "mk": "raw", "mut": name,
+                    "warm": case["warm"], "mut_res": res,
+                    "refl": _b(lambda: x == x), "refl_ne": _b(lambda: x != x),
+                    "copy_xy": _b(lambda: x == c), "copy_yx": _b(lambda: c == x),
+                    "z": int(z is not None),
+                    "eq_xz": _b(lambda: x == z) if z is not None else 0,
+                    "eq_zx": _b(lambda: z == x) if z is not None else 0,
+                    "eq_xo": _b(lambda: x == old), "eq_ox": _b(lambda: old == x),
+                    "hash_x": hx, "hash_c": hc, "hash_z": hz, "hash_old": ho,
+                    "heq_c": same(hx, vx, hc, vc), "heq_z": same(hx, vx, hz, vz), "heq_o": same(hx, vx, ho, vo),
+                    "sig": "%s.%s%s" % (cls, name, "" if case["warm"] else "@cold")}]}
 
 
 # ---- keeping the TLA+ table and the Python table in sync -----------------------------------------------------------
@@ -800,6 +884,9 @@ def cases(ctx):
     check_sync(spec, ctx)
     motion, setters = spec_json(r["out"], "MOTION"), spec_json(r["out"], "SETTERS")
     check_mutators(motion, setters, ctx)
+    raw = {(c, m[0]) for c, ms in spec_json(r["out"], "RAW").items() for m in ms}
+    if raw != set(RAW):
+        raise tlc.MachineryError("EqContract!RawMut and crv/props/c12.py!RAW disagree: %r" % sorted(raw ^ set(RAW)))
     cs += _random_mutations(spec, motion, setters, ctx.rng, 10000 if ctx.thorough else 1000)
     for c in cs:
         if c["kind"] == "mutate":
@@ -818,7 +905,7 @@ def cases(ctx):
     ctx.extra["tokens"] = sum(len(t) for g in spec.values() for t in g.values())
     ctx.extra["distinct_valuations"] = len(seen)
     ctx.extra["mutation_cases"] = {mk: sum(1 for c in cs if c["kind"] == "mutate" and c["mk"] == mk)
-                                   for mk in ("set", "move", "flat", "adv", "upd")}
+                                   for mk in ("set", "move", "flat", "adv", "upd", "raw")}
     ctx.extra["mutators"] = len({(c["cls"], c["grp"]) for c in cs if c["kind"] == "mutate"})
     return cs
 
@@ -958,7 +1045,7 @@ def execute(case):
     use_repo()
     warnings.simplefilter("ignore")
     if case["kind"] == "mutate":
-        return _execute_mutation(case)
+        return _execute_raw(case) if case["mk"] == "raw" else _execute_mutation(case)
     cls, xv, yv, kind = case["cls"], case["x"], case["y"], case["kind"]
     sig = "%s.%s" % (cls, case["grp"])
     ev = []
@@ -980,6 +1067,9 @@ def corrupt(trace, rng):
     """Flip one logged observation; the trace spec must reject exactly that event."""
     i = rng.randrange(len(trace["ev"]))
     e = trace["ev"][i]
+    if e["op"] == "raw":
+        e[rng.choice(["refl", "copy_xy", "copy_yx"])] = 0      # no longer equal to itself / its deep copy
+        return trace
     if e["op"] == "mut":
         how = rng.choice(["stale", "fresh", "hash"])
         if how == "stale":
